@@ -96,7 +96,7 @@ func RunWindow(es *ES, k int, maxTrials int, budget time.Duration, stopAtHits in
 						bc.arrived.Add(int32(k))
 					}
 				}()
-				ri := &ReqInfo{ID: g + 1, Rej: Rej{K: "none"}, T: tr, QID: func(string) string { return "QU" }}
+				ri := &ReqInfo{ID: g + 1, T: tr, QID: func(string) string { return "QU" }}
 				ctx := WithInfo(graphql.StartOperationTrace(context.Background()), ri)
 				q := queries[(trial+g)%len(queries)]
 				rc, errs := ex.CreateOperationContext(ctx, &graphql.RawParams{Query: q})
@@ -125,7 +125,7 @@ func RunWindow(es *ES, k int, maxTrials int, budget time.Duration, stopAtHits in
 					st.Poisoned++
 				}
 			}()
-			ri := &ReqInfo{ID: k + 1, Rej: Rej{K: "none"}, T: &Tracer{}, QID: func(string) string { return "QV" }}
+			ri := &ReqInfo{ID: k + 1, T: &Tracer{}, QID: func(string) string { return "QV" }}
 			ctx := WithInfo(graphql.StartOperationTrace(context.Background()), ri)
 			bc.arrived.Add(int32(k))
 			_, _ = ex.CreateOperationContext(ctx, &graphql.RawParams{Query: "{ name }"})
